@@ -40,6 +40,8 @@ func c09Chart(ver int, variant int) world.ChartSpec {
 	return world.ChartSpec{Version: ver, Resources: rs}
 }
 
+const c09PrunedNumberSig = "C09:revision-number-freed-by-pruning-was-created-again-during-the-race"
+
 func c09InProgressErr(err error) bool {
 	if err == nil {
 		return false
@@ -116,10 +118,38 @@ func c09Run(tb vt.TB, c c09Case) (taken []int, nontrivial bool, outcome string) 
 			}
 		}
 	}
-	for k, who := range creators {
-		if len(who) > 1 {
-			fail("C09:revision-created-by-more-than-one-operation", fmt.Sprintf("%s created by operations %v", k, who))
+	// (a revision number may be created again after its record was deleted: an atomic install that failed removes what
+	// it created, and the name is free for the next install)
+	type crEv struct {
+		seq    int
+		key    string
+		create bool
+		op     int
+	}
+	var crEvs []crEv
+	for i, r := range results {
+		for _, e := range r.Events {
+			if e.Layer == "store" && e.Code == 0 && (e.Verb == "Create" || e.Verb == "Delete") {
+				crEvs = append(crEvs, crEv{e.Seq, e.Key, e.Verb == "Create", i})
+			}
+		}
+	}
+	sort.Slice(crEvs, func(a, b int) bool { return crEvs[a].seq < crEvs[b].seq })
+	alive := map[string]bool{}
+	pruned := map[string]bool{} // deleted by an upgrade (history limit), not by the clean-up of a failed atomic install
+	for _, e := range crEvs {
+		if e.create && alive[e.key] {
+			fail("C09:revision-created-by-more-than-one-operation", fmt.Sprintf("%s created by operations %v", e.key, creators[e.key]))
 			return taken, false, ""
+		}
+		if e.create && pruned[e.key] && len(creators[e.key]) > 1 {
+			// a number that one of the racing operations had created and pruning then freed was handed out again
+			fail(c09PrunedNumberSig, fmt.Sprintf("%s created by operations %v, pruned in between", e.key, creators[e.key]))
+			return taken, false, ""
+		}
+		alive[e.key] = e.create
+		if !e.create && c.Ops[e.op].Kind == "upgrade" {
+			pruned[e.key] = true
 		}
 	}
 	// status of a stored revision at a point of the global order (from the successful writes seen so far)
@@ -159,7 +189,10 @@ func c09Run(tb vt.TB, c c09Case) (taken []int, nontrivial bool, outcome string) 
 			fail("C09:operation-succeeded-without-creating-a-revision", fmt.Sprintf("op%d", i))
 			return taken, false, ""
 		}
-		if !c09InProgressErr(r.Err) {
+		// (an upgrade of a name that was never installed, or whose only revision is being removed again, has nothing to
+		// upgrade: refused as well)
+		nothingToUpgrade := c.Start == "empty" && c.Ops[i].Kind == "upgrade" && (strings.Contains(r.Err.Error(), "has no deployed releases") || strings.Contains(r.Err.Error(), "not found"))
+		if !c09InProgressErr(r.Err) && !nothingToUpgrade {
 			fail("C09:loser-failed-with-unexpected-error", fmt.Sprintf("op%d: %v", i, r.Err))
 			return taken, false, ""
 		}
@@ -334,7 +367,20 @@ func c09GenCase(t *rapid.T) c09Case {
 				op.MaxHistory = rapid.SampledFrom([]int{0, 0, 1, 2}).Draw(t, "maxHistory")
 			}
 		}
+		// one upgrade in five that is not atomic fails in its readiness wait (after it has created its revision): the
+		// others are refused while it is in progress and may run once its failure is recorded. (Not drawn for installs
+		// with --replace and not with --atomic: what follows such a failure - a purge, an automatic rollback - is a
+		// sequence of its own, in which later operations legitimately start over.)
+		if op.Kind == "upgrade" && !op.Atomic && rapid.IntRange(0, 4).Draw(t, "readinessWaitFails") == 0 {
+			op.Fault = world.Fault{Kind: "wait", K: 0}
+		}
 		c.Ops = append(c.Ops, op)
+	}
+	// from an empty history, one case in four: an atomic install whose readiness wait fails (it removes what it created)
+	// next to a plain upgrade of the same name, which has nothing to upgrade at any moment
+	if c.Start == "empty" && rapid.IntRange(0, 3).Draw(t, "failingAtomicInstallNextToUpgrade") == 0 {
+		c.Ops[0].Atomic, c.Ops[0].Fault = true, world.Fault{Kind: "wait", K: 0}
+		c.Ops[1].Kind, c.Ops[1].Atomic, c.Ops[1].Fault = "upgrade", false, world.Fault{}
 	}
 	// the schedule is drawn as segments (operation, number of consecutive calls): single steps give fine interleavings,
 	// long segments let one operation run to completion while another is parked in the middle of its own
